@@ -13,6 +13,7 @@ use vmodel::Variant;
 pub fn subs() -> Vec<Sub> {
     vec![
         Sub { name: "random", run: run_random },
+        Sub { name: "blocks", run: run_blocks },
         Sub { name: "header", run: run_header },
         Sub { name: "body", run: run_body },
         Sub { name: "backends", run: run_backends },
@@ -253,6 +254,77 @@ fn run_backends(ctx: &Ctx) -> CheckResult {
 /// backgrounds, through the public API and every compiled backend.  (The per-byte sweeps
 /// enumerate the four dibits INSIDE a byte jointly; bit-sliced code shifts across byte
 /// borders inside its 32/64-bit words, which only this sweep enumerates.)
+/// Block-structured body pairs: the body is cut into blocks of 4, 8, 16 or 32 bytes and every
+/// block is either equal in both hashes, different in every byte, or random; ALL 3^k block
+/// patterns for k <= 8 blocks (wide-register code takes shortcuts per 16/32-byte lane: "this
+/// half is identical", "no lane differs"), through the public API and every compiled backend.
+fn run_blocks(ctx: &Ctx) -> CheckResult {
+    let live = Cell::new(true);
+    let hooks = ctx.api.caps().hooks;
+    for va in ctx.api.variants() {
+        let v = va.v();
+        let hdr = v.ck + 2;
+        let body = v.size() - hdr;
+        let bases = ctx.sample_values(&format!("blocks/{}", v.name), ctx.tier.pick(2, 6), &(proptest::collection::vec(any::<u8>(), v.size()), proptest::collection::vec(any::<u8>(), v.size())));
+        let mut jobs: Vec<(usize, usize, usize)> = Vec::new();
+        for bs in [4usize, 8, 16, 32] {
+            let k = body.div_ceil(bs);
+            if k > 8 || k < 1 {
+                continue;
+            }
+            for pat in 0..3usize.pow(k as u32) {
+                for bi in 0..bases.len() {
+                    jobs.push((bs, pat, bi));
+                }
+            }
+        }
+        let make = |bs: usize, pat: usize, bi: usize| -> (Vec<u8>, Vec<u8>) {
+            let (mut a, mut b) = (bases[bi].0.clone(), bases[bi].1.clone());
+            let mut p = pat;
+            for blk in 0..body.div_ceil(bs) {
+                let mode = p % 3;
+                p /= 3;
+                for i in hdr + blk * bs..(hdr + (blk + 1) * bs).min(v.size()) {
+                    match mode {
+                        0 => b[i] = a[i],
+                        1 => {
+                            if b[i] == a[i] {
+                                b[i] = a[i] ^ 0x55 ^ (i as u8 & 0xAA);
+                                if b[i] == a[i] {
+                                    b[i] = !a[i];
+                                }
+                            }
+                        }
+                        _ => {}
+                    }
+                }
+            }
+            (a, b)
+        };
+        let res = par_map(ctx.threads, &jobs, |&(bs, pat, bi)| -> bool {
+            let st = CaseStats::null();
+            let (a, b) = make(bs, pat, bi);
+            case_pair(va, &a, &b, hooks, &st).is_err() || case_pair(va, &b, &a, hooks, &st).is_err()
+        });
+        {
+            let mut ev = ctx.ev.borrow_mut();
+            ev.evaluations += jobs.len() as u64 * 8;
+            ev.nontrivial_enumerated += jobs.len() as u64;
+        }
+        ctx.subcheck("blocks", jobs.len() as u64);
+        if let Some(i) = res.iter().position(|&bad| bad) {
+            let (bs, pat, bi) = jobs[i];
+            let (a, b) = make(bs, pat, bi);
+            let st = ctx.stats("blocks", &live);
+            let msg = case_pair(va, &a, &b, hooks, &st).err().or_else(|| case_pair(va, &b, &a, hooks, &st).err()).unwrap_or_else(|| "mismatch did not reproduce".into());
+            return Err(ctx.violation("blocks", format!("{} [block size {}, pattern #{} (base 3: 0 equal, 1 all bytes differ, 2 random)]", msg, bs, pat), pair_json(v, &a, &b)));
+        }
+    }
+    ctx.ev.borrow_mut().sample(json!({"check": "blocks", "note": "all 3^k patterns of equal / all-different / random blocks of 4, 8, 16, 32 bytes (k <= 8), both argument orders"}));
+    ctx.exhaustive("all 3^k equal/all-different/random block patterns of the body for block sizes with at most 8 blocks, public API and every backend");
+    Ok(())
+}
+
 fn run_adjacent(ctx: &Ctx) -> CheckResult {
     let live = Cell::new(true);
     let hooks = ctx.api.caps().hooks;
